@@ -1035,7 +1035,7 @@ mutual
         simp only [List.isEmpty_eq_false_iff]; exact fmtArg_ne_nil F1 x
       have hc := parseArg_fmt x hv.2
       rw [fmtItem_slice, parseItem_def, normItem_slice]
-      simp only [List.append_assoc, List.singleton_append, List.cons_append, List.nil_append]
+      simp only [List.append_assoc, List.cons_append, List.nil_append]
       rw [splitOn_append_sep _ _ _ _ (fmtOpt_noColon F1 a) rfl,
         splitOn_append_sep _ _ _ _ (fmtOpt_noColon F1 b) rfl,
         splitOn_noSep _ _ (fmtArg_noColon F1 x)]
@@ -1575,13 +1575,15 @@ theorem fmtT_norm (F : FmtFacts) (root : String) (steps : List (Step L)) :
     fmtT F root (normSteps steps) = fmtT F root steps := by
   unfold fmtT
   rw [fmtSteps_norm]
-  exact assembleT_congr root _ (fun x => normStep_isSeg x.1) (fun _ => rfl) _
+  exact assembleT_congr root (fun (x : Step L × List (Tok L)) => (normStep x.1, x.2))
+    (fun x => normStep_isSeg x.1) (fun _ => rfl) _
 
 theorem fmtPath_norm (F : FmtFacts) (steps : List (Step L)) :
     fmtPath F (normSteps steps) = fmtPath F steps := by
   unfold fmtPath
   rw [fmtSteps_norm]
-  exact assemblePath_congr _ (fun x => normStep_isSeg x.1) (fun _ => rfl) _
+  exact assemblePath_congr (fun (x : Step L × List (Tok L)) => (normStep x.1, x.2))
+    (fun x => normStep_isSeg x.1) (fun _ => rfl) _
 
 end roundtrip
 
